@@ -38,7 +38,7 @@ time_t time (time_t * t)
   return v;
 }
 
-#define MAXN 512
+#define MAXN 4096
 static char *names[MAXN];
 static int nnames = 0;
 
@@ -157,9 +157,20 @@ static const char *pname (program_t * p)
   return o;
 }
 
+/* long canonical lines (a table with hundreds of slots does not fit vh_out's buffer) */
+static void out_long (const char *line)
+{
+  fprintf (stderr, "VL %s\n", line);
+  fflush (stderr);
+}
+
+#define DUMPSZ (1 << 20)
+static void dump_cmp (program_t * p);
+
 static void dump_prog (program_t * p)
 {
-  char line[16000], *o = line;
+  static char line[DUMPSZ];
+  char *o = line;
   size_t left = sizeof line;
 #define EMIT(...) do { int _n = snprintf (o, left, __VA_ARGS__); if (_n > 0 && (size_t) _n < left) { o += _n; left -= _n; } } while (0)
   EMIT ("tbl %s id=%d nvt=%d nvd=%d ft=", pname (p), p->id_number, p->num_variables_total, p->num_variables_defined);
@@ -194,7 +205,51 @@ static void dump_prog (program_t * p)
   for (int i = 0; i < p->num_inherited; i++)
     EMIT ("%s%s:%d:%d:%d", i ? "," : "", pname (p->inherit[i].prog), (int) p->inherit[i].function_index_offset,
           (int) p->inherit[i].variable_index_offset, (int) p->inherit[i].type_mod);
-  vh_out ("%s", line);
+  out_long (line);
+  dump_cmp (p);
+}
+
+/* the COMPRESSED table as it is stored: the fields of compressed_offset_table_t, the index bytes, and the stored
+ * runtime entries read directly from function_offsets[] (NOT through FIND_FUNC_ENTRY); the union member printed is
+ * the one the flags of the owning slot announce */
+static void dump_cmp (program_t * p)
+{
+  static char line[DUMPSZ];
+  char *o = line;
+  size_t left = sizeof line;
+  compressed_offset_table_t *c = p->function_compressed;
+  int f_ov = c->first_overload, f_def = c->first_defined;
+  int n_ov = f_def - c->num_compressed;
+  int j = f_def - c->num_deleted;
+  int nstored = p->num_functions_total - c->num_deleted;
+  EMIT ("cmp %s fdef=%d fov=%d ncomp=%d ndel=%d ix=", pname (p), f_def, f_ov, (int) c->num_compressed, (int) c->num_deleted);
+  if (n_ov <= 0)
+    EMIT ("-");
+  for (int i = 0; i < n_ov; i++)
+    EMIT ("%s%d", i ? "," : "", (int) c->index[i]);
+  EMIT (" st=");
+  if (nstored <= 0)
+    EMIT ("-");
+  for (int k = 0; k < nstored; k++)
+    {
+      int owner = -1;
+      runtime_function_u *e = p->function_offsets + k;
+      if (k < j)
+        {
+          for (int i = 0; i < n_ov; i++)
+            if (c->index[i] == k && c->index[i] != 255)
+              owner = f_ov + i;
+        }
+      else
+        owner = f_def + (k - j);
+      if (owner < 0 || owner >= p->num_functions_total)
+        EMIT ("%s?", k ? "," : "");
+      else if (p->function_flags[owner] & NAME_INHERITED)
+        EMIT ("%sI:%d:%d", k ? "," : "", (int) e->inh.offset, (int) e->inh.index);
+      else
+        EMIT ("%sD:%d:%d", k ? "," : "", (int) e->def.f_index, (int) e->def.num_arg);
+    }
+  out_long (line);
 }
 
 static void cmd_dump (int n, char **tok)
@@ -511,9 +566,9 @@ static void cmd_evict (const char *oid, const char *fn)
 
 static int c07_cmd (char *line)
 {
-  char copy[8192], *tok[128];
+  static char copy[1 << 17], *tok[4200];
   snprintf (copy, sizeof copy, "%s", line);
-  int n = vh_split (copy, tok, 128);
+  int n = vh_split (copy, tok, 4200);
   if (n == 0)
     return 0;
   if (!strcmp (tok[0], "names"))
